@@ -40,8 +40,8 @@ func checkC02(c *Ctx) {
 	tree := &SketchGen{Init: three, Tokens: []int{11, -10}, Ops: []string{"Add", "Merge", "Clear"}, Q: 4, QDen: 8, Depth: c.pick(4, 5)}
 	c.runSketchGen(tree, mx, c.pick(4, 8), "exhaustive tree add/merge/clear")
 	sim := &SketchGen{Init: plainExact(3, "plain"), Tokens: append(append([]int{}, tokBins3...), 0, -1, 2, -3), Weights: []int{1, 4, 8, 132},
-		Ops: []string{"Add", "AddW", "Merge", "Clear", "Copy"}, Q: 4, QDen: 8, Depth: c.pick(14, 24), Simulate: true, Num: c.pick(1500, 40000)}
-	c.runSketchGen(sim, mx, c.pick(8, 16), "simulated merge trees")
+		Ops: []string{"Add", "AddW", "Merge", "Merge", "EncDec", "Clear", "Copy"}, Q: 4, QDen: 8, Depth: c.pick(14, 24), Simulate: true, Num: c.pick(1500, 40000)}
+	c.runSketchGen(sim, mx, c.pick(8, 16), "simulated merge trees (MergeWith and DecodeAndMergeWith)")
 	// both variants merge their exact statistics too
 	simx := &SketchGen{Init: plainExact(3, "exact"), Tokens: append(append([]int{}, tokBins2...), 0, 2), Weights: []int{1, 4, 8},
 		Ops: []string{"Add", "AddW", "Merge", "Clear"}, Q: 4, QDen: 8, Depth: c.pick(10, 16), Simulate: true, Num: c.pick(500, 10000)}
